@@ -35,6 +35,36 @@ def pair_of_start(s, out, start_op):
     return set(w[:2])
 
 
+def reuse_cases(rnd, count):
+    """the session's pair - the last two slots of the device - was used before by a cancelled session of the same geometry with
+       other contents (complemented payloads), which left fragments, parity blocks and matrix rows behind, also in the last
+       erase block of each slot: everything the new session programs must have been erased by its start"""
+    out = []
+    for _ in range(count):
+        b = session.build_delivery(rnd, small=True, with_history=False)
+        # coarse erase blocks (a slot is one, two or three of them) so that the traffic of a small session reaches the last
+        # erase block of its slots; every second case keeps the fine-grained geometry
+        div = rnd.choice([1, 1, 2, 3])
+        blk = b.slot // div if (b.slot % div == 0 and rnd.random() < 0.75) else b.blk
+        t = session.Scn(4, b.slot, blk)
+        t.cls = "delivery"
+        t.add("start 8 2"); t.add("cancel")
+        ops = [b.ops[i] for i in [b.meta["start_op"]] + b.meta["seg_ops"]]
+        for o in ops:
+            w = o.split()
+            if w[0] == "seg":
+                o = "seg %s %s" % (w[1], bytes(x ^ 0xFF for x in bytes.fromhex(w[2])).hex())
+            t.add(o)
+        t.add("cancel")
+        t.meta = {"kind": "dirty-reuse", "n": b.meta["n"], "sz": b.meta["sz"], "lost": b.meta["lost"]}
+        t.meta["start_op"] = t.add(ops[0])
+        t.meta["seg_ops"] = [t.add(o) for o in ops[1:]]
+        t.meta["done_op"] = t.add("done")
+        t.add("validbl"); t.add("hdrs")
+        out.append(t)
+    return out
+
+
 def run(chk):
     chk.prove()
     rnd = random.Random(chk.seed)
@@ -64,6 +94,7 @@ def run(chk):
         b = c07.big_loss_base(rnd)
         fc = len([i for i in b.meta["seq"] if i <= b.meta["n"]])
         scns += [t for t in c07.twin_scenarios(rnd, True, base=b, positions=lambda npos, fc=fc: sorted(rnd.sample(range(fc + 1, npos), min(4, npos - fc - 1)))) if t.meta["tag"] != "ref"]
+    scns += reuse_cases(rnd, 12 if chk.quick() else 150)
     lines, impl, outs = session.run(chk, scns, stream="session-oplog")
     nt, nops, dist = [], 0, {"erases": 0, "programs": 0, "scenarios_in_last_slot": 0}
     for s, l, raw, out in zip(scns, lines, impl, outs):
@@ -106,6 +137,6 @@ def run(chk):
     chk.cov["evaluations"] += r["transitions"]
     chk.cov["streams"]["ring-closure[N=4]"].update({"states": r["states"], "transitions": r["transitions"], "closed": r["exhaustive"]})
     return chk.finish(level="proof", extra={"flash_operations_monitored": nops},
-        rule="naive-oplog: the same monitor over deliveries of the single-erasure back-end incl. the fragment indices around the end of the parity slot; session-oplog: deliveries with ring histories (all slot positions incl. the last slot), losses up to and beyond the capacity, geometries over all fragment sizes, fragment counts one beyond what fits followed by the last fragments, sessions resumed by try_recover during parity processing (9..40 unknowns); every erase / program is checked: inside one slot, inside the session's pair, "
+        rule="naive-oplog: the same monitor over deliveries of the single-erasure back-end incl. the fragment indices around the end of the parity slot; session-oplog: deliveries with ring histories (all slot positions incl. the last slot), losses up to and beyond the capacity, geometries over all fragment sizes, fragment counts one beyond what fits followed by the last fragments, sessions resumed by try_recover during parity processing (9..40 unknowns), sessions that reuse the last two slots of the device after a cancelled session of the same geometry with complemented contents (dirty-reuse); every erase / program is checked: inside one slot, inside the session's pair, "
              "header-area programs = one of the seven fields, no 0->1 need; ring closure: correspondence of every other call's operation log; non-trivial = every scenario (all issue flash operations); distinct by case text",
         trusted=core.TRUSTED_COMMON + ["C08: read-back equality follows from 'no program needs a 0->1 transition' under the AND-program device model of SimNor / Nor.v"])
